@@ -31,14 +31,15 @@ var errCrashed = errors.New("verif: this process generation has crashed")
 
 // world is the persistent part: it survives handler restarts.
 type world struct {
-	x       *sched.X
-	src     *hs.Mem
-	dsts    []*hs.Mem // one destination (and queue) per sync handler on the source
-	qs      []*hs.KV
-	crashed bool
-	inj     bool // fault injection enabled
-	nflt    int
-	flog    []string
+	x        *sched.X
+	src      *hs.Mem
+	dsts     []*hs.Mem // one destination (and queue) per sync handler on the source
+	qs       []*hs.KV
+	crashed  bool
+	fullSync bool // handlers are configured with "fullSyncOnStart"
+	inj      bool // fault injection enabled
+	nflt     int
+	flog     []string
 }
 
 // gen is one process generation: proxies that die with it.
@@ -269,6 +270,7 @@ func (w *world) start(n int) (*gen, error) {
 			"from": "/from/", "to": to,
 			"queue":           map[string]any{"type": "c19queue", "name": name},
 			"validateOnStart": false,
+			"fullSyncOnStart": w.fullSync,
 		}); err != nil {
 			return g, err
 		}
@@ -290,6 +292,9 @@ type program struct {
 	crash   bool
 	preload []hs.Blob // acknowledged and queued (but not yet copied) before the explored part: restart must deliver them
 	ndst    int       // number of sync handlers (destinations) on the source; default 1
+	// fullSync starts the handlers with "fullSyncOnStart": the start-up full enumeration of the
+	// source must end and hand over to the regular sync loop, or later uploads are never copied
+	fullSync bool
 }
 
 var programs = []program{
@@ -304,6 +309,8 @@ var programs = []program{
 	// a backlog larger than one round takes (batch size and channel buffers are scaled down to
 	// 2/2/1 in this build): every round must end and the next one must take the rest
 	{name: "backlog5,restart", preload: []hs.Blob{bA, bB, bC, bD, bE}},
+	{name: "full-sync-on-start||upload-a", uploads: [][]hs.Blob{{bA}}, fullSync: true},
+	{name: "full-sync-on-start/queued-a,restart||upload-b", uploads: [][]hs.Blob{{bB}}, preload: []hs.Blob{bA}, fullSync: true},
 }
 
 func scenario(p program, bound, cbound int) *sched.Config {
@@ -314,7 +321,7 @@ func scenario(p program, bound, cbound int) *sched.Config {
 			if nd == 0 {
 				nd = 1
 			}
-			w := &world{x: x, src: hs.NewMem("src")}
+			w := &world{x: x, src: hs.NewMem("src"), fullSync: p.fullSync}
 			for i := 0; i < nd; i++ {
 				w.dsts = append(w.dsts, hs.NewMem(fmt.Sprintf("dst%d", i)))
 				w.qs = append(w.qs, hs.NewKV(fmt.Sprintf("queue%d", i)))
